@@ -35,6 +35,8 @@ THEOREMS = [
     "CrCube.C14.strand_median_spec",
     "CrCube.C14.strand_none_iff",
     "CrCube.C14.subtotal_counts",
+    "CrCube.C14.margin_mean_spec",
+    "CrCube.C14.margin_median_spec",
 ]
 RULE = ("designs cat x cat, mr x cat, cat x mr, mr x mr, CA (subvar x cat) slices and cat / mr strands; numeric "
         "values partial / repeated / negative / unsorted / absent; surveys unweighted, integer- or dyadic-weighted, "
@@ -112,7 +114,7 @@ def gen_case(rng):
             for p in range(len(v.cats)):
                 for _ in range(rng.choice([0, 0, 0, 1, 1, 2, 2, 3, 4])):
                     sv.append((F(1), [[p]]))
-            wmode = "unit"
+            wmode = rng.choice(["unit", "unit", "int", "dyadic", "dyadic"])
         else:
             sv = gen.gen_survey(rng, vars_, weighted=False, n_resp=rng.choice([0, 1, 2, 5, 10, 20, 30]))
         transforms = {}
@@ -164,7 +166,7 @@ def gen_case(rng):
 
 
 def generate(ctx):
-    return [gen_case(ctx.rng) for _ in range(ctx.n(170, 3000))]
+    return [gen_case(ctx.rng) for _ in range(ctx.n(300, 8000))]
 
 
 # ---------------------------------------------------------------------------------------
